@@ -1150,3 +1150,29 @@ func compileOptionsOwned(w *World, r *Report, rule string) {
 		undecidedf("%s: only %d writes of graphCompileOptions fields found", rule, n)
 	}
 }
+
+// DEAD-DEFAULT: a function literal that is built and then used by nothing (no call, no store, not passed on, not
+// returned — the SSA value has no referrer) is a default that was prepared and then forgotten: the code that follows
+// went on using the configured value the default was meant to replace (`x := cfg.F; if x == nil { x = func… }` followed
+// by `use(cfg.F)`).
+func deadClosures(fn *ssa.Function) []*ssa.MakeClosure {
+	var out []*ssa.MakeClosure
+	instrs(fn, func(in ssa.Instruction) {
+		mc, ok := in.(*ssa.MakeClosure)
+		if !ok {
+			return
+		}
+		used := false
+		if refs := mc.Referrers(); refs != nil {
+			for _, ref := range *refs {
+				if _, dbg := ref.(*ssa.DebugRef); !dbg {
+					used = true
+				}
+			}
+		}
+		if !used {
+			out = append(out, mc)
+		}
+	})
+	return out
+}
